@@ -651,6 +651,7 @@ func c08UsableAfterwards(c *ev.Ctx) {
 func c08Probes(c *ev.Ctx, self, work string) {
 	probes := []struct{ name, script, what string }{
 		{"deep-paren-nesting", "return " + strings.Repeat("(", 3000000) + "1" + strings.Repeat(")", 3000000) + ";", "parentheses nested 3,000,000 deep overflow the Go stack in the recursive-descent parser: the process dies (fatal error: stack overflow)"},
+		{"deep-value-nesting", `a = []; i = 0; while (i < 1000000) { a = [a]; i++; } return len(sprintf("%v", a));`, "an array nested 1,000,000 deep, built by a 90-byte script, overflows the Go stack when it is printed (Inspect recurses once per level): the process dies (fatal error: stack overflow)"},
 		{"unbounded-recursion", "function f(n) { return f(n + 1); } return f(1);", "unbounded script recursion without a deadline overflows the Go stack (the VM recurses in Go for each call): the process dies"},
 	}
 	for i, p := range probes {
